@@ -345,6 +345,29 @@ for _p, _t in _EXTRA9B.items():
     if _p in CLAIMS:
         t, n, te, r = CLAIMS[_p]
         CLAIMS[_p] = (t + _t, n, te, r)
+_EXTRA10 = {
+ "C01": " Tenth round: (R-TXN-15) the swap phase of COMMIT is not interruptible: no instruction between the first and the last file swap consults the context.",
+ "C02": " Tenth round: (R-FMT-18) every import encoding the go-text detector can refine (derived from its source: AUTO, UTF8, UTF16) is refined before the file is decoded.",
+ "C03": " Tenth round: (R-QUANT-1) ANY / ALL / IN / NOT IN are the Kleene folds of the element comparisons, also over the empty list; (R-MEMBER-1) a membership scan answers 'absent' only after the whole collection was examined; (R-UTF-2).",
+ "C05": " Tenth round: (R-MEMBER-1); (R-TMPKIND-2) the kind an alias is registered with agrees with the container its view came from — a regression of an earlier repair found and repaired (UPDATE / DELETE of STDIN).",
+ "C06": " Tenth round: (R-UTF-2) the small-code-point fast path of a hand-written character-class predicate agrees with the standard predicate it bypasses; (R-QUANT-1).",
+ "C07": " Tenth round: R-IDENT-1 registered (the computed column an ORDER BY item sorts by is found by the exact identifier of the expression).",
+ "C09": " Tenth round: (R-LOCK-21) the lock pass of a data-changing statement locks every table of its list on every path; (R-LOCK-22) the matcher of control-file names agrees with the names the creators build.",
+ "C10": " Tenth round: R-FMT-12 / R-FMT-4 registered (the bytes that close a committed file are encoded with the file's own encoding).",
+ "C11": " Tenth round: (R-CLEAN-12) the reference to a control file is cleared only after the file was removed or renamed successfully.",
+ "C12": " Tenth round: (R-CPL-1); R-SRT-12 registered.",
+ "C13": " Tenth round: (R-CPL-1) a value that holds a sync / atomic type by value is never copied (value receivers, by-value parameters, whole-value loads of shared storage).",
+ "C14": " Tenth round: R-SCP-2 registered (a scope is released once: a node scope pooled twice is handed to two nested queries).",
+ "C15": " Tenth round: (R-SCP-13) every invocation binds every declared name of the function in its own block.",
+ "C16": " Tenth round: (R-CUR-13) OPEN evaluates the cursor's query in the scope of the OPEN statement; (R-SCP-13); (R-CPL-1); R-SCP-1 registered.",
+ "C17": " Tenth round: (R-ROW-1) a per-row evaluation stands on the row that receives its result (position, evaluate, store for the same record).",
+ "C19": " Tenth round: (R-IDX-1) an index advanced inside a scanning loop is proven < len before it is used; (R-RECT-1) rows built before the header is final are padded unconditionally: every loaded JSON table is rectangular.",
+ "C20": " Tenth round: (R-CACHE-8) the read-through caches of the transaction are filled on every success path under the key they were looked up with; R-ISO-5 registered.",
+}
+for _p, _t in _EXTRA10.items():
+    if _p in CLAIMS:
+        t, n, te, r = CLAIMS[_p]
+        CLAIMS[_p] = (t + _t, n, te, r)
 # Substrate rules (rules/zz_substrate.go): run with every property whose observable behaviour they protect.
 _SUBSTRATE = " Substrate (run with every value-level property, DESIGN §2.11): R-POOL-1/2/3/5 (no value object is returned to its pool while something still refers to it, none twice), R-PAR-1 (no unsynchronised conflicting access between worker goroutines), R-ALIAS-1 (no shared spare capacity), R-ISO-4 / R-AST-1 (no in-place write to cells or syntax trees that another holder shares)."
 for _p in ["C01","C02","C03","C04","C05","C06","C07","C08","C12","C13","C14","C15","C16","C17","C19","C20"]:
